@@ -2,7 +2,7 @@
    [reachable] = any number of serve_forever / shutdown / server_close calls, client connects and disconnects, and
    completions of awaited operations, in any interleaving (Conc/Lifecycle.v). *)
 From Coq Require Import List Bool Arith.
-From EN Require Import Conc.Lifecycle Proofs.C18_proofs Proofs.C18_theorems.
+From EN Require Import Conc.Lifecycle Proofs.C18_proofs Proofs.C18_theorems Conc.Standalone Proofs.C18_standalone.
 Import ListNotations.
 
 (* At most one serve_forever is ever past its entry check, and a serve_forever issued while one is running is refused
@@ -89,6 +89,26 @@ Theorem serve_forever_clean_exit_when_guarded :
   forall s l s' o id, step s l = Some (s', o) -> ~ In (Ret id OCrash) o.
 Proof. exact no_crash_when_guarded. Qed.
 Print Assumptions serve_forever_clean_exit_when_guarded.
+
+(* FINDING 2 (thread-level model of the standalone wrapper, Conc/Standalone.v; parameter regenerated from
+   BaseStandaloneNetworkServerImpl.shutdown): as found, shutdown() waits for the ONE shared threading.Event after it
+   has released the bootstrap lock.  A shutdown() issued while the server is not running, pre-empted between the
+   locked section and the wait, blocks once another thread's serve_forever() has cleared the event: a reachable state
+   in which the shutdown thread waits, the server serves, nobody has asked it to stop and NO transition is enabled
+   ("no call deadlocks" is refuted).  With one event per run captured under the lock (the proposed fix) the same
+   schedule lets that shutdown() return while the new run keeps serving. *)
+Theorem standalone_shutdown_no_deadlock_refuted :
+  Gen.ParamsC18.standalone_shutdown_guarded = false ->
+  exists s, treachable s /\ thr s = [(0, H2 0); (1, V4)] /\ t_shut s = false /\ astop s = false /\
+            (forall id, tstep s (TStep id) = None) /\ tstep s TAsyncEnd = None.
+Proof. exact lost_wakeup_witness. Qed.
+Print Assumptions standalone_shutdown_no_deadlock_refuted.
+
+Theorem standalone_shutdown_returns_when_guarded :
+  Gen.ParamsC18.standalone_shutdown_guarded = true ->
+  exists s s', trun tinit lost_wakeup_trace = Some s /\ tstep s (TStep 0) = Some (s', [(0, TOk)]) /\ thr s' = [(1, V4)].
+Proof. exact guarded_shutdown_returns. Qed.
+Print Assumptions standalone_shutdown_returns_when_guarded.
 
 Example reachable_busy_state :
   exists s, reachable s /\ busy s /\ serves s = [(0, SWait)] /\ dying s = 1.
